@@ -10,35 +10,89 @@ Local Open Scope N_scope.
 Definition seek_recoverable (H : host) : Prop :=
   ho_seek_status H 0 = 0 /\ forall c, ho_seek_status H c = 0 \/ ho_seek_status H c = EINVAL.
 
-Lemma fb_resume uc p x rest size :
+Lemma all_fit_mono size size' l : size <= size' -> all_fit size l -> all_fit size' l.
+Proof. intros Hle Hf x Hx. pose proof (Hf x Hx). lia. Qed.
+
+Lemma all_fit_app_r size a b : all_fit size (a ++ b) -> all_fit size b.
+Proof. intros Hf x Hx. apply Hf. apply in_or_app. right. exact Hx. Qed.
+
+(* with every record fitting, the re-read loop cannot fail *)
+Lemma refill_all_fit size : forall fuel s b pos,
+  (length s < fuel)%nat -> all_fit size s ->
+  exists b2 n2, refill fuel s size b pos = (ROk b2, n2).
+Proof.
+  induction fuel as [|f IH]; intros s b pos Hlen Hf; [lia|].
+  cbn [refill]. destruct (only_dots b); [|eauto].
+  destruct (getdents_all_fit _ _ Hf) as (b' & s' & Hg & Hs & Hne). rewrite Hg.
+  assert (Hsk : skipn (length b') s = s') by (rewrite Hs at 1; apply skipn_app_len). rewrite Hsk.
+  destruct s as [|e ts].
+  - destruct b'; [|discriminate]. cbn [app] in Hs. subst s'. destruct f; cbn [refill only_dots]; eauto.
+  - assert (Hb' : b' <> []) by (apply Hne; discriminate).
+    apply IH.
+    + assert (Hl : length (e :: ts) = (length b' + length s')%nat) by (rewrite Hs at 1; apply app_length).
+      destruct b'; [congruence|cbn [length] in *; lia].
+    + rewrite Hs in Hf. apply (all_fit_app_r _ _ _ Hf).
+Qed.
+
+(* what `post` hands over: a segment of b ++ s after skipped dot records *)
+Lemma post_resume X uc d size (p : list hent) b s :
+  d = p ++ b ++ s -> all_fit size s ->
+  exists K B S, b ++ s = K ++ B ++ S /\ visible K = [] /\
+                fst (post X uc d size b (length p + length b)) = ROk B.
+Proof.
+  intros Hd Hf. unfold post.
+  assert (Hsk : skipn (length p + length b) d = s).
+  { rewrite Hd, app_assoc. replace (length p + length b)%nat with (length (p ++ b)) by (rewrite app_length; reflexivity).
+    apply skipn_app_len. }
+  rewrite Hsk. destruct (rx_refill X).
+  - destruct (refill_all_fit size (S (length s)) s b (length p + length b)%nat (Nat.lt_succ_diag_r _) Hf) as (b2 & n2 & Hr).
+    rewrite Hr. destruct (refill_segment size _ p b s b2 n2 Hr) as (K & s2 & HK & _ & Hv).
+    exists K, b2, s2. split; [exact HK|]. split; [exact Hv|reflexivity].
+  - exists [], b, s. split; [reflexivity|]. split; reflexivity.
+Qed.
+
+Lemma fb_resume X uc p x rest size :
   good_dir ((p ++ [x]) ++ rest) -> all_fit size ((p ++ [x]) ++ rest) ->
-  exists B S, rest = B ++ S /\ fst (fb uc ((p ++ [x]) ++ rest) size (h_off x)) = ROk B.
+  exists K B S, rest = K ++ B ++ S /\ visible K = [] /\
+                fst (fb X uc ((p ++ [x]) ++ rest) size (h_off x)) = ROk B.
 Proof.
   intros Hg Hf.
   assert (Hd : (p ++ [x]) ++ rest = p ++ x :: rest) by (rewrite <- app_assoc; reflexivity).
-  rewrite Hd in *. unfold fb.
-  assert (Hn : ~ In (h_off x) (map h_off p)) by (apply nodup_mid_notin with rest; apply Hg).
-  destruct (scan_found (S (length (p ++ x :: rest))) [] p x rest size (h_off x)
-              (Nat.lt_succ_diag_r _) eq_refl Hn Hf) as (b & s & Hsc & Hr & _).
-  cbn [length] in Hsc. rewrite Hsc. exists b, s. split; [exact Hr|reflexivity].
+  unfold fb.
+  set (ss := if rx_scanlen X then N.max size 4096 else size).
+  assert (Hfs : all_fit ss (p ++ x :: rest)).
+  { rewrite <- Hd. apply (all_fit_mono size); [unfold ss; destruct (rx_scanlen X); lia|exact Hf]. }
+  assert (Hn : ~ In (h_off x) (map h_off p)) by (apply nodup_mid_notin with rest; rewrite <- Hd; apply Hg).
+  rewrite Hd.
+  destruct (scan_found (S (length (p ++ x :: rest))) [] p x rest ss (h_off x)
+              (Nat.lt_succ_diag_r _) eq_refl Hn Hfs) as (b & s & Hsc & Hr & _).
+  cbn [length] in Hsc. rewrite Hsc.
+  assert (Hd2 : p ++ x :: rest = (p ++ [x]) ++ b ++ s) by (rewrite Hr, <- app_assoc; reflexivity).
+  assert (Hfs2 : all_fit size s).
+  { intros y Hy. apply Hf. apply in_or_app. right. rewrite Hr. apply in_or_app. right. exact Hy. }
+  destruct (post_resume X uc (p ++ x :: rest) size (p ++ [x]) b s Hd2 Hfs2) as (K & B & S & HK & Hv & Hp).
+  replace (0 + length p + 1 + length b)%nat with (length (p ++ [x]) + length b)%nat by (rewrite app_length; cbn [length]; lia).
+  exists K, B, S. split; [rewrite Hr; exact HK|]. split; [exact Hv|exact Hp].
 Qed.
 
-Lemma gd_resume uc pre rest size :
+Lemma gd_resume X uc pre rest size :
   all_fit size (pre ++ rest) ->
-  exists B S, rest = B ++ S /\ fst (gd uc (pre ++ rest) size (length pre)) = ROk B.
+  exists K B S, rest = K ++ B ++ S /\ visible K = [] /\
+                fst (gd X uc (pre ++ rest) size (length pre)) = ROk B.
 Proof.
   intros Hf. unfold gd. rewrite skipn_pre.
-  assert (Hfit : match rest with e :: _ => host_reclen e <= size | [] => True end).
-  { destruct rest; [exact I|]. apply Hf. apply in_or_app. right. left. reflexivity. }
-  rewrite (getdents_fits _ _ Hfit).
-  destruct (take_fit_prefix host_reclen rest size) as [s Hs].
-  exists (take_fit host_reclen size rest), s. split; [exact Hs|reflexivity].
+  destruct (getdents_all_fit rest size (all_fit_app_r _ _ _ Hf)) as (b & s & Hg & Hs & _). rewrite Hg.
+  assert (Hd : pre ++ rest = pre ++ b ++ s) by (rewrite Hs; reflexivity).
+  assert (Hfs : all_fit size s).
+  { intros y Hy. apply Hf. apply in_or_app. right. rewrite Hs. apply in_or_app. right. exact Hy. }
+  destruct (post_resume X uc (pre ++ rest) size pre b s Hd Hfs) as (K & B & S & HK & Hv & Hp).
+  exists K, B, S. split; [rewrite Hs; exact HK|]. split; [exact Hv|exact Hp].
 Qed.
 
-Lemma fetch_resume_any H uc pre rest hs size off :
+Lemma fetch_resume_any H X uc pre rest hs size off :
   good_dir (pre ++ rest) -> seek_recoverable H -> Inv_h (pre ++ rest) hs -> off_at pre off ->
   all_fit size (pre ++ rest) ->
-  exists B S, rest = B ++ S /\ fst (fetch H uc (pre ++ rest) hs size off) = ROk B.
+  exists K B S, rest = K ++ B ++ S /\ visible K = [] /\ fst (fetch H X uc (pre ++ rest) hs size off) = ROk B.
 Proof.
   intros Hg [Hs0 Hs] Hi Ho Hf. rewrite fetch_unfold.
   destruct (off_at_index _ _ _ Hg Ho) as [[-> ->]|[Hnz Hidx]].
@@ -46,11 +100,11 @@ Proof.
     + exfalso. destruct uc; [|discriminate]. destruct (cache_hit_sound H _ _ _ Hg Hi Hh) as [Hx _].
       exact (good_no_zero _ _ Hg Hx).
     + replace (I64_MAX <? 0) with false by reflexivity. rewrite Hs0. cbn [N.eqb].
-      unfold lseek_pos. cbn [N.eqb]. apply (gd_resume uc [] rest size Hf).
+      unfold lseek_pos. cbn [N.eqb]. apply (gd_resume X uc [] rest size Hf).
   - assert (Hgd : forall pos, pos = length pre ->
-              exists B S, rest = B ++ S /\ fst (gd uc (pre ++ rest) size pos) = ROk B).
+              exists K B S, rest = K ++ B ++ S /\ visible K = [] /\ fst (gd X uc (pre ++ rest) size pos) = ROk B).
     { intros pos ->. apply gd_resume. exact Hf. }
-    assert (Hfb : exists B S, rest = B ++ S /\ fst (fb uc (pre ++ rest) size off) = ROk B).
+    assert (Hfb : exists K B S, rest = K ++ B ++ S /\ visible K = [] /\ fst (fb X uc (pre ++ rest) size off) = ROk B).
     { destruct Ho as [[_ ->]|(p & x & -> & ->)]; [congruence|]. apply fb_resume; assumption. }
     destruct (cache_hit uc hs off) eqn:Hh.
     + destruct uc; [|discriminate]. destruct (cache_hit_sound H _ _ _ Hg Hi Hh) as [Hx _].
@@ -66,24 +120,24 @@ Lemma step_resume_any H C pre rest st r :
   lookups_ok H (pre ++ rest) -> wrap_total (c_wrap C) ->
   (c_noopendir C = false -> hs_open (st_h st (r_handle r)) = true) ->
   off_at pre (r_offset r) -> r_size r <> 0 -> all_fit (r_size r) (pre ++ rest) ->
-  exists B S, rest = B ++ S /\
+  exists K B S, rest = K ++ B ++ S /\ visible K = [] /\
     fst (step H C (pre ++ rest) st r) =
     ROk (map (mkd H (c_wrap C) (r_plus r)) (take_fit (dirent_size (r_plus r)) (r_size r) (visible B))).
 Proof.
   intros Hg Hs Hi Hl Hw Hop Ho Hnz Hf. rewrite step_unfold.
   destruct (r_size r =? 0) eqn:Ez; [lia|].
-  assert (Hdel : forall B S refs, rest = B ++ S ->
+  assert (Hdel : forall K B S refs, rest = K ++ B ++ S ->
      fst (deliver H (c_wrap C) (r_plus r) (r_size r) B true 0 refs) =
      ROk (map (mkd H (c_wrap C) (r_plus r)) (take_fit (dirent_size (r_plus r)) (r_size r) (visible B)))).
-  { intros B S refs HB. rewrite (deliver_spec _ _ _ _ B); [rewrite N.sub_0_r; reflexivity| |exact Hw].
+  { intros K B S refs HB. rewrite (deliver_spec _ _ _ _ B); [rewrite N.sub_0_r; reflexivity| |exact Hw].
     apply (lookups_ok_sub H (pre ++ rest)); [exact Hl|]. intros e He. apply in_or_app. right.
-    rewrite HB. apply in_or_app. left. exact He. }
+    rewrite HB. apply in_or_app. right. apply in_or_app. left. exact He. }
   destruct (c_noopendir C).
-  - destruct (fetch_resume_any H false pre rest fresh_fd (r_size r) (r_offset r) Hg Hs I Ho Hf) as (B & S & HB & Hfe).
-    exists B, S. split; [exact HB|]. rewrite Hfe. cbn [fst]. apply (Hdel B S _ HB).
+  - destruct (fetch_resume_any H (c_rx C) false pre rest fresh_fd (r_size r) (r_offset r) Hg Hs I Ho Hf) as (K & B & S & HB & Hv & Hfe).
+    exists K, B, S. split; [exact HB|]. split; [exact Hv|]. rewrite Hfe. cbn [fst]. apply (Hdel K B S _ HB).
   - rewrite (Hop eq_refl). cbn [negb]. cbv zeta.
-    destruct (fetch_resume_any H true pre rest (st_h st (r_handle r)) (r_size r) (r_offset r) Hg Hs (Hi _) Ho Hf) as (B & S & HB & Hfe).
-    exists B, S. split; [exact HB|]. rewrite Hfe. cbn [fst]. apply (Hdel B S _ HB).
+    destruct (fetch_resume_any H (c_rx C) true pre rest (st_h st (r_handle r)) (r_size r) (r_offset r) Hg Hs (Hi _) Ho Hf) as (K & B & S & HB & Hv & Hfe).
+    exists K, B, S. split; [exact HB|]. split; [exact Hv|]. rewrite Hfe. cbn [fst]. apply (Hdel K B S _ HB).
 Qed.
 
 (* safety on any host with recoverable lseek, for sizes that hold every host record *)
@@ -125,7 +179,7 @@ Proof.
       destruct (IH H C pre rest (snd o) off plus replies Hg Hs Hl Hw Hi2 Hop2 Hsz2 Ho Hrest) as [s Hs0].
       exists s. cbn [concat app]. exact Hs0. }
     destruct (step_resume_any H C pre rest st1 (mk_req (ms_handle m) (ms_size m) off plus) Hg Hs Hi1 Hl Hw
-                (fun Hc => Hop1 Hc m (or_introl eq_refl)) Ho Hnz Hfit) as (B & S & HS & Hstep).
+                (fun Hc => Hop1 Hc m (or_introl eq_refl)) Ho Hnz Hfit) as (K & B & S & HS & HK & Hstep).
     cbn [r_size r_plus r_handle r_offset] in Hstep. fold o in Hstep. rewrite Hstep in Hfst.
     injection Hfst as Hrp.
     set (DD := take_fit (dirent_size plus) (ms_size m) (visible B)) in *.
@@ -136,12 +190,14 @@ Proof.
       exists s. cbn [concat app]. exact Hs0.
     + rewrite HDD in Hs'. rewrite <- app_assoc in Hs'. cbn [app] in Hs'.
       destruct (filter_prefix_split _ _ _ _ _ Hs') as (B1 & B2 & HB & HB1 & HB2 & Hx).
-      assert (Hd : pre ++ rest = (pre ++ B1 ++ [x]) ++ (B2 ++ S)).
+      assert (Hd : pre ++ rest = (pre ++ (K ++ B1) ++ [x]) ++ (B2 ++ S)).
       { rewrite HS, HB, <- !app_assoc. reflexivity. }
       assert (Hvr : visible rest = DD ++ visible (B2 ++ S)).
-      { rewrite HS, HB, HDD. apply visible_split; assumption. }
-      assert (Ho' : off_at (pre ++ B1 ++ [x]) (last_off rp off)).
-      { right. exists (pre ++ B1), x. split; [rewrite <- app_assoc; reflexivity|].
+      { rewrite HS, HB, HDD. rewrite app_assoc. rewrite (app_assoc K). apply visible_split; [|exact Hx].
+        change (filter (fun e => negb (is_dot e)) (K ++ B1)) with (visible (K ++ B1)).
+        rewrite visible_app, HK. exact HB1. }
+      assert (Ho' : off_at (pre ++ (K ++ B1) ++ [x]) (last_off rp off)).
+      { right. exists (pre ++ K ++ B1), x. split; [rewrite <- !app_assoc; reflexivity|].
         rewrite <- Hrp, HDD. apply last_off_map. }
       rewrite Hd in Hg, Hl, Hi2, Hrest, Hsz2.
       destruct (IH H C _ _ (snd o) _ plus replies Hg Hs Hl Hw Hi2 Hop2 Hsz2 Ho' Hrest) as [s Hs0].
@@ -150,8 +206,9 @@ Qed.
 
 (* ------------------------------------------------------------------ the statement on such hosts is refuted too *)
 (* the full statement for hosts whose cookies need not be seekable *)
-Definition C16_full_any_host_stmt : Prop :=
+Definition C16_full_any_host_stmt (X : rfixes) : Prop :=
   forall plan H C pre rest st off plus,
+  c_rx C = X ->
   good_dir (pre ++ rest) -> seek_recoverable H -> lookups_ok H (pre ++ rest) ->
   wrap_total (c_wrap C) -> InvSt (pre ++ rest) st ->
   (c_noopendir C = false -> forall m, In m plan -> hs_open (st_h st (ms_handle m)) = true) ->
@@ -168,7 +225,7 @@ Definition f_dir : list hent :=
   [mk_hent (repeat 120 100) 11 9223372036854775900 8; mk_hent [97] 12 9223372036854775901 8;
    mk_hent [98] 13 9223372036854775902 8].
 Definition f_host : host := mk_host (fun _ => 0%nat) (fun c => if c =? 0 then 0 else EINVAL) (fun _ => ROk (7, 11)).
-Definition f_cfg : cfg := mk_cfg true (fun i => ROk i).     (* no_opendir: no cookie cache in the way *)
+Definition f_cfg : cfg := mk_cfg true (fun i => ROk i) no_rfixes.     (* no_opendir: no cookie cache in the way *)
 Definition f_plan : list mstep := [mk_mstep [] 0 128; mk_mstep [] 0 32; mk_mstep [] 0 32; mk_mstep [] 0 32].
 
 Lemma f_listing_value :
@@ -176,10 +233,11 @@ Lemma f_listing_value :
   = [ROk [mk_dirent 7 9223372036854775900 8 (repeat 120 100) 0]; RErr EINVAL].
 Proof. vm_compute. reflexivity. Qed.
 
-Lemma C16_full_any_host_refuted : ~ C16_full_any_host_stmt.
+Lemma C16_full_any_host_refuted : ~ C16_full_any_host_stmt no_rfixes.
 Proof.
   intros Hfull.
   destruct (Hfull f_plan f_host f_cfg [] f_dir (init_state []) 0 false) as (replies & Hl & _).
+  - reflexivity.
   - split; [cbn; repeat constructor; cbn; intuition discriminate|repeat constructor; cbn; discriminate].
   - split; [reflexivity|intros c; cbn; destruct (c =? 0); auto].
   - intros e _ _. exists (7, 11). reflexivity.
@@ -192,3 +250,10 @@ Proof.
   - change ([] ++ f_dir) with f_dir in Hl. rewrite f_listing_value in Hl.
     destruct replies as [|r1 [|r2 rs]]; cbn in Hl; discriminate.
 Qed.
+
+(* the same witness on a tree whose scan uses a buffer of max(size, 4096): the listing is complete *)
+Lemma f_listing_fixed :
+  listing f_host (mk_cfg true (fun i => ROk i) all_rfixes) f_dir (init_state []) 0 false f_plan
+  = [ROk [mk_dirent 7 9223372036854775900 8 (repeat 120 100) 0]; ROk [mk_dirent 7 9223372036854775901 8 [97] 0];
+     ROk [mk_dirent 7 9223372036854775902 8 [98] 0]; ROk []].
+Proof. vm_compute. reflexivity. Qed.
